@@ -58,10 +58,19 @@ def run(rep, tier):
         return fs[0]
 
     cs = {n: get(F, CS + "::" + n) for n in ("wait", "wait_until", "try_wait", "try_acquire", "signal", "signal_all")}
+    # the permit counter: the member the semaphore's functions add permits to / take permits from (whatever it is called)
+    from collections import Counter
+    cnt_ = Counter(P(e["lhs"]) for fn_ in cs.values() for _, _, e in fn_.all_events()
+                   if e.get("k") == "write" and e.get("op") in ("+=", "-=", "--", "++") and P(e["lhs"]).startswith("this->"))
+    if not cnt_:
+        raise AnalysisBroken("%s: the permit counter was not identified" % CS)
+    adds_ = [cnt_.most_common(1)[0][0]]
+    VALP = adds_[0]
+    VAL = VALP[len("this->"):]
     ss = {n: get(G, SS + "::" + n) for n in ("set_max_difference", "wait", "try_wait", "signal", "signal_all")}
 
     # completeness: no other member touches the fields
-    for Fx, tab, rec, fields in ((F, cs, CS, ["value_"]), (G, ss, SS, ["lower_limit_", "max_difference_"])):
+    for Fx, tab, rec, fields in ((F, cs, CS, [VAL]), (G, ss, SS, ["lower_limit_", "max_difference_"])):
         for f in Fx.fns:
             if f.kind in ("ctor", "dtor") or f in tab.values():
                 continue
@@ -70,7 +79,7 @@ def run(rep, tier):
                     raise AnalysisBroken("%s accesses %s but is not in the C08 table" % (f.qname, ev["e"]["name"]))
 
     flows = {}
-    for tab, rec, fields in ((cs, CS, ["value_"]), (ss, SS, ["lower_limit_", "max_difference_"])):
+    for tab, rec, fields in ((cs, CS, [VAL]), (ss, SS, ["lower_limit_", "max_difference_"])):
         for n, fn in tab.items():
             lf = LockFlow(fn)
             flows[fn.qname] = lf
@@ -84,17 +93,17 @@ def run(rep, tier):
 
         def kill(ev, pos, rel=lf.release_events):
             if pos in rel:
-                return lambda atom: "value_" in atom
+                return lambda atom: VAL in atom
             return None
         ff = FactFlow(fn, kill=kill)
-        ds = decrements(fn)
+        ds = decrements(fn, VALP)
         if not ds:
             raise AnalysisBroken("%s::%s does not consume permits any more" % (CS, n))
         for b, i, ev, amt in ds:
             fb = ff.before.get((b, i))
             if fb is None:
                 continue
-            need = ("this->value_ < %s" % amt, False)
+            need = ("%s < %s" % (VALP, amt), False)
             if need in fb:
                 rep.ok("C08.R2", fn, "value_ reduced by %s at %s only after !(value_ < %s) under the same critical section" % (amt, loc_of(ev), amt))
             else:
@@ -150,7 +159,7 @@ def run(rep, tier):
 
     # R4
     def consumed_marks(fn):
-        pos = set((b, i) for b, i, ev, amt in decrements(fn))
+        pos = set((b, i) for b, i, ev, amt in decrements(fn, VALP))
         for b, i, ev in fn.all_events():
             if ev.get("k") == "call" and callee_of(ev) in (CS + "::wait", SS + "::wait"):
                 pos.add((b, i))
@@ -182,7 +191,7 @@ def run(rep, tier):
                     rep.ok("C08.R4", fn, "return false at %s leaves the count untouched" % loc_of(ev))
 
     # R5 signal
-    for fn, field, allowed in ((cs["signal"], "this->value_", ("value_", "count", "notify_one")),
+    for fn, field, allowed in ((cs["signal"], VALP, (VAL, "count", "notify_one")),
                                (ss["signal"], "this->lower_limit_", ("count", "notify_one"))):
         lf = flows[fn.qname]
         notifies = [(b, i, ev) for b, i, ev in fn.all_events()
